@@ -162,6 +162,110 @@ def make_overlap_group(rng, nlists):
     return {"tys": tys, "consts": consts, "lists": lists[:max(nlists, 12)], "pairs": True, "stream": "union-overlap"}
 
 
+# --------------------------------------- tagged-overlap stream (seeded C12-5)
+# A fn:TaggedUnion handed to the bounds together with struct types over the tag field + a variant's fields whose
+# TAG FIELD IS WIDER than the variant's tag (/name, /any, a name prefix, a union of singletons) and that overlap a
+# variant without conforming to the tagged union (a field wider than the variant's) - so that the conformance
+# shortcuts of intersectType do not answer and the meet itself has to be right - in both orders, with and without
+# /any and fillers, together with the constants that separate the tag ({/kind: /zzz, ..}, {/kind: /b, /x: 1}).
+# Verdict unchanged: go_unsound_bounds on Go's own answers, classified by the judge per LIST (Fixed bound = Strict
+# bound -> inside the fragment -> VIOLATION); the lists on which the unchanged tree already returns a lower bound
+# with a member outside the tagged union are exactly those where a struct conforms to the tagged union through
+# its /name expansion (F7f): there Fixed (the struct) differs from Strict (empty) and the item is counted as known.
+TAG_FIELDS = ["/kind", "/k", "/type"]
+VARIANT_TAGS = ["/a", "/b", "/c", "/a/b"]
+OTHER_FIELDS = ["/x", "/y", "/z"]
+NARROW_WIDE = [(T.NUMBER, T.ANY), (T.STRING, T.ANY), (T.tc("/p/q"), T.tc("/p")), (T.tc("/p"), T.NAME),
+               (T.tsing(T.cname("/p/q")), T.tc("/p")), (T.tlist(T.NUMBER), T.tlist(T.ANY)),
+               (T.NUMBER, T.tunion([T.NUMBER, T.STRING])), (T.tpair(T.NUMBER, T.STRING), T.tpair(T.ANY, T.STRING))]
+MEMBERS = {json.dumps(t): m for t, m in [
+    (T.NUMBER, [T.cnum(1), T.cnum(0)]), (T.STRING, [T.cstr("s"), T.cstr("")]),
+    (T.tc("/p/q"), [T.cname("/p/q/r"), T.cname("/p/q")]), (T.tc("/p"), [T.cname("/p/x"), T.cname("/p/q/r")]),
+    (T.tsing(T.cname("/p/q")), [T.cname("/p/q")]), (T.tlist(T.NUMBER), [T.clist([T.cnum(1)]), T.clist([])]),
+    (T.tpair(T.NUMBER, T.STRING), [T.cpair(T.cnum(1), T.cstr("s"))])]}
+FIELD_VALUES = [T.cnum(1), T.cstr("s"), T.cname("/p/q"), T.cname("/p/x"), T.cname("/zzz"), T.clist([T.cnum(1)]),
+                T.clist([T.cstr("s")]), T.cpair(T.cnum(1), T.cstr("s")), T.cpair(T.cstr("s"), T.cstr("s"))]
+
+
+def make_tagged_group(rng, nlists):
+    tag = rng.choice(TAG_FIELDS)
+    vtags = rng.sample(VARIANT_TAGS, rng.choice([1, 2, 2, 3]))
+    same_fields = rng.random() < 0.35          # all variants over one field set / each over its own
+    fsets, variants, nw = [], [], {}
+    for i, v in enumerate(vtags):
+        fs = fsets[0] if same_fields and fsets else rng.sample(OTHER_FIELDS, rng.choice([1, 1, 2]))
+        fsets.append(fs)
+        fts = []
+        for f in fs:
+            n, w = rng.choice(NARROW_WIDE)
+            nw[(i, f)] = (n, w)
+            fts.append([f, n])
+        variants.append([v, T.tstruct(fts)])
+    tu = T.ttagged(tag, variants)
+    other = [t for t in VARIANT_TAGS + ["/zzz"] if t not in vtags]
+
+    def wide_tags(v):
+        return [T.NAME, T.NAME, T.ANY, T.tc(v), T.tunion([T.tsing(T.cname(v)), T.tsing(T.cname(other[0]))]),
+                T.tc(v.rsplit("/", 1)[0]) if v.count("/") > 1 else T.NAME]
+
+    structs = []
+    for i, (v, _) in enumerate(variants):
+        fs = fsets[i]
+        for _ in range(2):
+            tt = rng.choice(wide_tags(v))
+            # at least one field wider than the variant's: the struct does not conform to the tagged union
+            widen = set(rng.sample(fs, rng.randint(1, len(fs))))
+            structs.append(T.tstruct([[tag, tt]] + [[f, nw[(i, f)][1 if f in widen else 0]] for f in fs]))
+        # exact tag / another tag with wider fields, wide tag with the variant's own fields (conforms through F7f)
+        structs.append(T.tstruct([[tag, T.tsing(T.cname(v))]] + [[f, nw[(i, f)][1]] for f in fs]))
+        structs.append(T.tstruct([[tag, rng.choice(wide_tags(v))]] + [[f, nw[(i, f)][0]] for f in fs]))
+        if rng.random() < 0.5:
+            structs.append(T.tstruct([[tag, T.tsing(T.cname(other[0]))]] + [[f, nw[(i, f)][1]] for f in fs]))
+        if rng.random() < 0.4:                  # field order: tag last
+            structs.append(T.tstruct([[f, nw[(i, f)][1]] for f in fs] + [[tag, T.NAME]]))
+    structs = T.dedup(structs)
+    rng.shuffle(structs)
+    structs = structs[:6]
+    fill = rng.sample(FILLERS, 2)
+    extra = [T.tunion([structs[0], fill[0]]), T.tunion([tu, fill[1]]), T.ANY, fill[0]]
+    if len(variants) > 1:
+        extra.append(T.ttagged(tag, variants[:1]))
+        extra.append(T.tunion([structs[0], structs[-1]]))
+    tys = T.dedup([tu] + structs + extra)
+    ns = len(structs)
+    any_i = tys.index(T.ANY)
+    # the tagged union against every struct in both orders, with /any in front / in the middle for the first ones
+    lists = []
+    for j in range(1, 1 + ns):
+        lists += [[0, j], [j, 0]]
+    for j in range(1, 1 + min(ns, 3)):
+        lists += [[any_i, 0, j], [0, any_i, j], [j, 0, any_i]]
+    for j in range(1 + ns, len(tys)):
+        if tys[j] != T.ANY:
+            lists += [[0, j], [j, 0]]
+    while len(lists) < nlists:
+        k = rng.choice([2, 3, 3])
+        l = [rng.randrange(len(tys)) for _ in range(k)]
+        if any(T.ty_kinds(tys[i], {}).get("tagged") for i in l):
+            lists.append(l)
+    # constants: for every variant its members (values aimed at the variant's field types) and near misses (values
+    # of the wider field types), each under EVERY tag: the variants', unknown ones, a name below a variant's tag, a
+    # non-name; plus a struct without the tag and one with a field too many. Aiming only: membership is Go's answer.
+    tagvals = [T.cname(t) for t in vtags + other[:2] + [vtags[0] + "/q"]] + [T.cnum(1)]
+    consts = []
+    for i, fs in enumerate(fsets):
+        inside = [MEMBERS[json.dumps(nw[(i, f)][0])] for f in fs]
+        for tv in tagvals:
+            consts.append(T.cstruct([[T.cname(tag), tv]] + [[T.cname(f), m[0]] for f, m in zip(fs, inside)]))
+            consts.append(T.cstruct([[T.cname(tag), tv]] + [[T.cname(f), rng.choice(m)] for f, m in zip(fs, inside)]))
+            consts.append(T.cstruct([[T.cname(tag), tv]] + [[T.cname(f), rng.choice(FIELD_VALUES)] for f in fs]))
+        consts.append(T.cstruct([[T.cname(f), m[0]] for f, m in zip(fs, inside)]))                      # no tag
+        consts.append(T.cstruct([[T.cname(tag), tagvals[0]], [T.cname("/extra"), T.cnum(1)]] +
+                                [[T.cname(f), m[0]] for f, m in zip(fs, inside)]))                      # one field too many
+    consts += list(BASE_REPS.values())[:3] + [T.cname("/a"), T.cstruct([])]
+    return {"tys": tys, "consts": T.dedup(consts), "lists": lists, "pairs": True, "stream": "tagged-overlap"}
+
+
 def _subterms(t, acc):
     acc.append(t)
     k = t[0]
@@ -564,6 +668,8 @@ def run(ck):
     novl = ck.n(10, 150)
     for _ in range(novl):
         groups.append(make_overlap_group(rng, rng.choice([16, 20, 24])))
+    for _ in range(ck.n(8, 100)):
+        groups.append(make_tagged_group(rng, rng.choice([24, 30])))
     exhaustive = not ck.quick
     if exhaustive:
         groups.append(exhaustive_union_group())
